@@ -225,7 +225,7 @@ class Interp:
         owner = field_owner(cls, fld)
         key = f"{owner}.{fld}"
         if not mut:
-            raise OutOfSubset(f"write to immutable field {key}", node)
+            return self.init_write(ref, cls, fld, ty, key, val, st, node)
         self.note_write(key, ref, st)
         if isinstance(ty, tuple) and ty[0] == "opt":
             if val is None:
@@ -250,6 +250,21 @@ class Interp:
             pass
         else:
             st.heap.write(key, ref, self.coerce(val, ty))
+
+    def init_write(self, ref, cls, fld, ty, key, val, st, node):
+        """Store to an immutable (frozen / write-once) field: only inside a constructor on `self`, where it *defines* the field
+        (the uninterpreted function's value at the fresh object); a second write on the same path is refused."""
+        fn = getattr(self, "cur_fn_name", "") or ""
+        if not (fn.endswith("__init__") or fn.endswith("__post_init__") or fn.endswith("__new__")):
+            raise OutOfSubset(f"write to immutable field {key} outside a constructor", node)
+        selfv = st.env.get("self")
+        if not (isinstance(selfv, Sym) and selfv.t.eq(ref)):
+            raise OutOfSubset(f"write to immutable field {key} of an object other than self", node)
+        done = getattr(st, "init_done", set())
+        if key in done:
+            raise OutOfSubset(f"second write to write-once field {key}", node)
+        st.init_done = set(done) | {key}
+        self.define_field(ref, cls, fld, ty, val, st)
 
     def note_write(self, key, ref, st):
         """Frame bookkeeping: remember (key, owner) pairs written on this path."""
